@@ -180,7 +180,7 @@ def build_array(descr, nrows, pat):
     return np.frombuffer(b"".join(rows), dtype=dt).copy()
 
 
-LAYOUTS = ("contig", "step2", "reversed", "column2d", "zerod")
+LAYOUTS = ("contig", "step2", "reversed", "column2d", "zerod", "table2d")
 
 
 def lay_out(a, layout, descr, pat):
@@ -193,6 +193,9 @@ def lay_out(a, layout, descr, pat):
         if n != 1:
             raise MachineryError("a 0-d array has one row")
         return a.reshape(())
+    if layout == "table2d":
+        # a 2-d table: its rows are its elements; first axis shorter than the row count wherever n allows it
+        return a.reshape((2, n // 2) if n % 2 == 0 else ((1, n) if pat % 2 == 0 else (n, 1)))
     decoy = build_array(descr, 2 * n, pat + 7919)
     if layout == "step2":
         buf = np.empty(2 * n, dtype=a.dtype)
@@ -1124,7 +1127,9 @@ def rand_case(rng, k):
     writer = rng.choice(WRITERS)
     hdr = rand_header(rng) if writer in HDR_WRITERS else None
     nrows = rng.choice([1, 1, 2, 2, 5, 5, 17, 64])
-    layout = rng.choice(LAYOUTS if nrows == 1 else LAYOUTS[:4])
+    layout = rng.choice(LAYOUTS[:5] if nrows == 1 else LAYOUTS[:4])
+    if k % 7 == 3:
+        layout = "table2d"
     return {"src": "random", "writer": writer, "layout": layout, "descr": descr, "nrows": nrows,
             "hdr": None if hdr is None else repr(hdr), "pat": k}
 
@@ -1210,9 +1215,10 @@ def signatures(rec, failing):
             elif clause in ("unexpected_error", "write_rejected", "process_crashed"):
                 sig = "%s|%s|%s" % (g, clause, "header_file" if hdr_file else "headerless_file")
             else:
-                noncontig = case.get("layout", "contig") not in ("contig", "zerod")
+                noncontig = case.get("layout", "contig") not in ("contig", "zerod", "table2d")
                 big = case_block(case) > 1
                 sig = "%s|%s|%s" % (g, clause, "non_contiguous_input" if noncontig else
+                                    "two_dimensional_input" if case.get("layout") == "table2d" else
                                     "table_over_2^24_bytes" if big else order_class(case))
             rep = g if g in ents else (case["writer"] if case["writer"] in ents else sorted(ents)[0])
             out.append((sig, rep, clause))
